@@ -293,6 +293,22 @@ func subLists() mon.Sub {
 				}
 				req += "\r\n"
 				plans := xport.Plans(c.Rng.Int63(), nil)
+				if pk := c.Rng.Intn(8); pk < 5 {
+					// the process has served other clients before this one: a handshake (its own upgrader, its own
+					// negotiator) whose extensions header breaks the list grammar behind a well-formed offer, or that was
+					// refused for another reason after its offers had been read. Nothing of it may reach this client.
+					pre := "GET / HTTP/1.1\r\nHost: x\r\nUpgrade: websocket\r\nConnection: Upgrade\r\nSec-WebSocket-Version: 13\r\n"
+					pre += []string{
+						"Sec-WebSocket-Key: dGhlIHNhbXBsZSBub25jZQ==\r\nSec-WebSocket-Extensions: permessage-deflate; client_max_window_bits, =[\r\n",
+						"Sec-WebSocket-Key: dGhlIHNhbXBsZSBub25jZQ==\r\nSec-WebSocket-Extensions: permessage-deflate; server_max_window_bits=10; client_no_context_takeover, ;;\r\n",
+						"Sec-WebSocket-Key: dGhlIHNhbXBsZSBub25jZQ==\r\nSec-WebSocket-Extensions: x-foo; a=1\r\nSec-WebSocket-Extensions: permessage-deflate, \"\r\n",
+						"Sec-WebSocket-Extensions: permessage-deflate; client_max_window_bits=9\r\n",
+						"Sec-WebSocket-Key: dGhlIHNhbXBsZSBub25jZQ==\r\nSec-WebSocket-Extensions: permessage-deflate; server_no_context_takeover; bogus=1\r\n",
+					}[pk]
+					pe := &wsflate.Extension{Parameters: wsflate.Parameters{}}
+					ws.Upgrader{Negotiate: pe.Negotiate}.Upgrade(xport.RW{Reader: strings.NewReader(pre + "\r\n"), Writer: xport.NewRec()})
+					det["earlier_refused_handshake_in_this_process"] = pk
+				}
 				u := ws.Upgrader{Negotiate: e.Negotiate, ReadBufferSize: []int{0, 64, 128, 256, 512}[c.Rng.Intn(5)]}
 				det["read_buffer"], det["plan"] = u.ReadBufferSize, plans[c.I%len(plans)].String()
 				hs, err := u.Upgrade(xport.RW{Reader: xport.NewChunker([]byte(req), plans[c.I%len(plans)]), Writer: xport.NewRec()})
